@@ -1,4 +1,5 @@
 import Insim.Drv.C13
+import Insim.Drv.C15
 /-
 Line-protocol driver: one operation per input line, one canonical result per output line.
 Imports model files only (no Mathlib, no proof files) so that it links as a native executable.
@@ -7,7 +8,8 @@ open Insim.Drv
 
 def dispatch (line : String) : String :=
   let ws := words line
-  match C13.handle ws with
+  let hs : List (List String → Option String) := [C13.handle, C15.handle]
+  match hs.findSome? (fun h => h ws) with
   | some r => r
   | none => "bad-op"
 
